@@ -45,6 +45,7 @@ type Clause struct {
 	File   string
 	Line   int
 	Region string // known-finding region attached at run time
+	Varies []string // relational clauses: parameters that differ between the two runs
 }
 
 type TypeSpec struct {
@@ -105,6 +106,7 @@ type FuncSpec struct {
 	Line      int
 	NoHavoc   bool
 	Reveal    []string
+	RelInline []string // callees executed inline in relational (two-run) mode
 	Implements string
 	GhostSets [][2]string // ghost assignments performed at function exit: target, expression
 }
@@ -258,6 +260,15 @@ func (sp *Specs) parseFile(repo, file string) error {
 			c := &Clause{Kind: kind, Props: props, File: file, Line: pendingLine}
 			lm := labelRe.FindStringSubmatch(rest)
 			if lm == nil {
+				// relational: "label varies a, b: expr"
+				if i := strings.Index(rest, " varies "); kind == "relational" && i > 0 {
+					lbl := strings.TrimSpace(rest[:i])
+					vs, body := parseVaries(strings.TrimSpace(rest[i+1:]))
+					lm = []string{"", lbl, body}
+					c.Varies = vs
+				}
+			}
+			if lm == nil {
 				return nil, fmt.Errorf("%s:%d: clause needs `label: expr`", file, pendingLine)
 			}
 			c.Label, c.Text = lm[1], lm[2]
@@ -347,6 +358,10 @@ func (sp *Specs) parseFile(repo, file string) error {
 				return fmt.Errorf("%s:%d: ghostset target = expr", file, pendingLine)
 			}
 			curF.GhostSets = append(curF.GhostSets, [2]string{strings.TrimSpace(rest[:i]), strings.TrimSpace(rest[i+1:])})
+		case "relational_inline":
+			for _, n := range splitList(rest) {
+				curF.RelInline = append(curF.RelInline, qualify(pkg, n))
+			}
 		case "implements":
 			curF.Implements = qualify(pkg, rest)
 		case "reveal":
